@@ -197,6 +197,11 @@ func vfOutChunks(r *vfRand, opts TrzszOptions, n int) [][]byte {
 			ch = []byte([]string{"**\x18B0", "**\x18B0" + "0123456789a", "**\x18B00000000000000\x18\x18\x18\x18\x18\x18\x18\x18", "**\x18B0100000023be50\r\x8a cannot open /x\r\n", "*\x18B00000000000000", "**\x18B02000000000000"}[r.Intn(6)])
 		case 6: // OSC 52 fragments
 			ch = []byte([]string{"\x1b]52;c;", "\x1b]52;c;aGVsbG8=\x07", "\x1b]52;c;aGVsbG8", "\x1b]52;p;!!!notbase64\x1b\\", "\x1b]52;x;abc\x07", "\x1b]52;c;" + strings.Repeat("QUJD", 2000), "\x1b]52;c;AAAA\x1b]52;c;BBBB\x07"}[r.Intn(7)])
+			if r.Intn(2) == 0 && len(ch) < 100 { // the read ends anywhere inside the sequence; the rest arrives in the next read
+				k := 1 + r.Intn(len(ch))
+				out = append(out, ch[:k])
+				ch = ch[k:]
+			}
 		case 7: // trace-log marker near misses
 			ch = []byte([]string{"<ENABLE_TRZSZ_TRACE_LOG", "ENABLE_TRZSZ_TRACE_LOG>", "<ENABLE_TRZSZ_TRACE_LOG >", "<DISABLE_TRZSZ_TRACE_LOG>", "<enable_trzsz_trace_log>"}[r.Intn(5)])
 		default:
